@@ -3,6 +3,7 @@
 package c05
 
 import (
+	"bytes"
 	"fmt"
 	"runtime/debug"
 	"sort"
@@ -213,6 +214,8 @@ func classify(c *Case) (bool, []string) {
 			cls = append(cls, name)
 		}
 	}
+	// how close opening comes to its read budget (64 MiB + 1000 x size)
+	add(st.OpenRead > 1<<20+100*int64(len(c.Data)), "open-read>1MiB+100x")
 	add(st.Opened, "opened")
 	add(!st.Opened, "open-failed")
 	add(st.Opened && st.GetErrs > 0, "get-errors")
@@ -264,6 +267,19 @@ func classify(c *Case) (bool, []string) {
 			}
 		default:
 			cls = append(cls, "edit:"+f[0])
+		}
+	}
+	hasPre, hasCycle := false, false
+	for _, e := range c.Edits {
+		hasPre = hasPre || strings.HasPrefix(e, "preamble ")
+		hasCycle = hasCycle || strings.HasPrefix(e, "prevcycle ")
+	}
+	// the combination counts only if the header really is preceded by junk
+	// and the file was not cut or spliced afterwards
+	if hasPre && hasCycle && !bytes.HasPrefix(c.Data, []byte("%PDF-")) && bytes.Contains(c.Data[:min(len(c.Data), 1024)], []byte("%PDF-")) {
+		cls = append(cls, "combo:preamble+prevcycle")
+		if st.Opened {
+			cls = append(cls, "combo:preamble+prevcycle/opened")
 		}
 	}
 	sort.Strings(cls)
@@ -329,6 +345,13 @@ func genCase(t *rapid.T) Case {
 			}
 			// the library's own documents reach deepest: they are kept
 			// always, the other files two times out of five
+			if strings.HasPrefix(s.Name, "hostile-prevcycle-") {
+				// 21 near-identical files: keep their share of the pool small
+				if rnd.Intn(10) == 0 {
+					return s
+				}
+				continue
+			}
 			if strings.HasPrefix(s.Name, "lib-") || rnd.Intn(5) < 2 {
 				return s
 			}
